@@ -111,6 +111,12 @@ add("C09", "model_checking",
     "Trusted: the mirror construction in mc/checks/c09.py (ticks negated, range bounds swapped and negated, per-token volumes swapped). Prices exactly on a range bound are excluded (rounding noise decides the side in either orientation).",
     "DESIGN.md §5 C09")
 
+add("C19", "model_checking",
+    "exhaustive enumeration of schedules of the real BacktestManager.run: in-process path and pool path under a controlled pool substituted for multiprocessing.Pool (one real forked child per worker, each task's arguments un-pickled separately, every task -> worker assignment enumerated), results compared with solo runs; the real Pool is run as a conformance check",
+    "2 market mixes (one pool; two pools in one configuration) x every ordered selection of <= 3 of 4 strategies (opens and keeps positions; idle; trades and turns liquidity over every bar; period trigger) plus repeated strategies and a 9-strategy batch x threads 1 (in-process) and 2 / 3 (pool) x every assignment of the submitted units to workers (w^n). Each strategy writes its account history rows, actions, wallet and final positions in finalize(); each must equal the same strategy run alone with fresh objects. Map-style submissions are modelled with the pool's own chunking (a chunk is pickled as one unit). Three (thorough: five) runs under the real multiprocessing.Pool in a fresh interpreter check the substitute.",
+    "Trusted: the controlled pool in mc/checks/c19.py (partial-order reduction: workers share nothing after the fork, so only the assignment and the order within a worker are observable). demeter.core.backtest.Pool / set_start_method / cpu_count are rebound in the harness process only.",
+    "DESIGN.md §5 C19")
+
 _PENDING = "check not built yet in this round (planned: bounded exhaustive exploration, see DESIGN.md §5); listed here until its check is registered"
 for _i in range(1, 21):
     _p = f"C{_i:02d}"
